@@ -31,7 +31,9 @@ static int cv_reenter; static var cv_reenter_target; static struct GC* cv_gc;
 static void GC_Rem(var self, var key);
 var destruct(var x) {
   cv_destructs++; if (x == gh_q) cv_destructs_q++; cv_last_destruct = x;
+#ifndef CV_REENTER_CUT
   if (cv_reenter == 1 && x == cv_reenter_target) { cv_reenter = 0; /* an owner (Box) deleting what it owns: del(owned) -> rem(current(GC), owned) */ GC_Rem(cv_gc, gh_q); }
+#else
   if (cv_reenter == 2 && x == cv_reenter_target) {
     /* the owner's destructor calls del(owned); its effect on the collector is GC_Rem_Ptr's contract (obligation set rem_ptr): an object pending in
      * the running sweep is struck from the pending list and finalised and released exactly once; one already finalised is not touched */
@@ -39,6 +41,7 @@ var destruct(var x) {
     int k = (cv_gc->freenum > 0 && FREELIST[0] == gh_q) ? 0 : (cv_gc->freenum > 1 && FREELIST[1] == gh_q) ? 1 : (cv_gc->freenum > 2 && FREELIST[2] == gh_q) ? 2 : (cv_gc->freenum > 3 && FREELIST[3] == gh_q) ? 3 : -1;
     if (k >= 0) { FREELIST[k] = NULL; cv_destructs++; cv_destructs_q++; cv_deallocs++; cv_deallocs_q++; }
   }
+#endif
   return x;
 }
 void dealloc(var x) { cv_deallocs++; if (x == gh_q) cv_deallocs_q++; if (x != cv_last_destruct && !cv_reenter_target) cv_order_bad++; }
@@ -88,6 +91,7 @@ static int view(struct GC* g, size_t n, var p, bool* root, bool* marked) {
 #endif
 static void arbitrary_gc(void) {
   gc = (struct GC*)header_init(&GO.h, GC, AllocHeap); cv_gc = gc;
+  { struct GC any_state; *gc = any_state; }      /* every field the invariant below does not pin down is arbitrary (whatever history left there) */
   gc->entries = ENT_A; gc->nslots = NS; gc->running = true; gc->freelist = NULL; gc->freenum = 0; gc->bottom = NULL;
   gc->minptr = (uintptr_t)CELL(0); gc->maxptr = (uintptr_t)CELL(63); gc->mitems = nondet_ulong();
   size_t cnt = 0;
